@@ -142,6 +142,51 @@ def make_energy_class():
     return PolyEnergy
 
 
+def make_script_energy_class():
+    ift = nifty()["ift"]
+
+    class ScriptEnergy(ift.Energy):
+        """1-D energy whose value/slope at the i-th point the line search constructs are the i-th script entry,
+        whatever the position: an arbitrary oracle (ties, NaN, inf, FloatingPointError, non-smooth data)"""
+
+        def __init__(self, position, state, entry):
+            super().__init__(position)
+            self._state = state
+            self._value = np.float64(entry[0])
+            self._grad = ift.makeField(position.domain, np.array([float(entry[1])]))
+
+        def at(self, position):
+            st = self._state
+            i = st["n"]
+            st["n"] += 1
+            entry = st["script"][i] if i < len(st["script"]) else st["default"]
+            if entry[0] == "fpe":
+                raise FloatingPointError("scripted")
+            return ScriptEnergy(position, st, entry)
+
+        @property
+        def value(self):
+            return self._value
+
+        @property
+        def gradient(self):
+            return self._grad
+
+        def longest_step(self, direction):
+            return self._state.get("longest")
+
+    return ScriptEnergy
+
+
+def script_energy(case):
+    ift = nifty()["ift"]
+    if "ScriptEnergy" not in _N:
+        _N["ScriptEnergy"] = make_script_energy_class()
+    dom = ift.UnstructuredDomain(1)
+    st = dict(n=0, script=case["script"], default=case["default"], longest=case.get("longest"))
+    return _N["ScriptEnergy"](ift.makeField(dom, np.array([0.0])), st, [case["phi0"], case["dphi0"]])
+
+
 def energy_at(spec, x0, longest=None):
     ift = nifty()["ift"]
     if "PolyEnergy" not in _N:
@@ -231,9 +276,13 @@ def returned_alpha(rec, start_energy, ret_energy):
 def run_line_search(case):
     """run the real LineSearch on the case; returns dict(outcome, rec data, energies)"""
     ift = nifty()["ift"]
-    spec = case["energy"]
-    e0 = energy_at(spec, case["x0"], case.get("longest"))
-    pk = field(spec["n"], case["d"])
+    if case.get("kind") == "lsscript":
+        e0 = script_energy(case)
+        pk = field(1, [1.0])
+    else:
+        spec = case["energy"]
+        e0 = energy_at(spec, case["x0"], case.get("longest"))
+        pk = field(spec["n"], case["d"])
     kw = dict(case["ls"])
     ls = ift.LineSearch(**kw)
     rec = Recorder()
@@ -284,22 +333,29 @@ def ls_model_line(case, rec, pk):
 
 
 def ls_margin(case, rec):
-    """smallest relative margin of the float comparisons that involve rounded arithmetic (Armijo, curvature)"""
+    """smallest relative margin of the float comparisons that involve *rounded* arithmetic (Armijo, curvature);
+    a comparison whose float right-hand side is exact (dyadic data) is decided exactly and has no margin issue"""
     ls = case["ls"]
-    c1, c2 = Fraction(float(ls.get("c1", 1e-4))), Fraction(float(ls.get("c2", 0.9)))
-    phi0, dphi0 = Fraction(float(rec.ev0[1])), Fraction(float(rec.ev0[2]))
+    c1f, c2f = float(ls.get("c1", 1e-4)), float(ls.get("c2", 0.9))
+    c1, c2 = Fraction(c1f), Fraction(c2f)
+    p0f, d0f = float(rec.ev0[1]), float(rec.ev0[2])
+    phi0, dphi0 = Fraction(p0f), Fraction(d0f)
     m = Fraction(1)
     for a, f, d in rec.events:
         if isinstance(f, str) or f is None or not math.isfinite(f):
             continue
-        a, f = Fraction(a), Fraction(float(f))
+        af = float(a)
+        a, f = Fraction(af), Fraction(float(f))
         rhs = phi0 + c1 * a * dphi0
+        with np.errstate(all="ignore"):
+            rhs_f = p0f + c1f * af * d0f           # the code's expression, same association
         sc = abs(f) + abs(phi0) + abs(c1 * a * dphi0)
-        if sc:
+        if sc and not (math.isfinite(rhs_f) and Fraction(rhs_f) == rhs):
             m = min(m, abs(f - rhs) / sc)
-        if d is not None and math.isfinite(d) and dphi0:
+        if d is not None and math.isfinite(d) and dphi0 and c2:
             d = Fraction(float(d))
-            m = min(m, abs(abs(d) + c2 * dphi0) / abs(c2 * dphi0) if c2 else Fraction(1))
+            if Fraction(-c2f * d0f) != -c2 * dphi0:
+                m = min(m, abs(abs(d) + c2 * dphi0) / abs(c2 * dphi0))
     return m
 
 
